@@ -428,7 +428,8 @@ impl Parser {
         }
         let val: f64 = text.parse().unwrap_or(f64::NAN);
         if !val.is_finite() {
-            self.not_judged.push("number literal outside the double range".into());
+            // `1e400`: a number of the grammar (no range rule applies to fractions / exponents); its
+            // value is beyond every double
         } else if int_text && val.abs() > MAX_SAFE as f64 {
             self.not_judged.push("integer literal in a comparison beyond the I-JSON range".into());
         } else if !int_text && val.abs() > MAX_SAFE as f64 && val.fract() == 0.0 {
@@ -907,4 +908,24 @@ pub fn parse_ast(s: &str) -> Option<Query> {
         Verdict::NotJudged(_, q) => q,
         Verdict::Invalid(_) => None,
     }
+}
+
+/// the location a path made of name and non-negative index steps spells (`None` for anything else)
+pub fn path_to_loc(path: &str) -> Option<crate::json::Loc> {
+    let q = parse_ast(path)?;
+    if !q.abs {
+        return None;
+    }
+    let mut loc = vec![];
+    for s in &q.segs {
+        if s.desc || s.sels.len() != 1 {
+            return None;
+        }
+        match &s.sels[0] {
+            Sel::Name(n) => loc.push(crate::json::Step::Key(n.val.clone())),
+            Sel::Index(i) if *i >= 0 => loc.push(crate::json::Step::Idx(*i as usize)),
+            _ => return None,
+        }
+    }
+    Some(loc)
 }
